@@ -20,13 +20,14 @@ def impl(case):
     reset_pyrates()
     try:
         from pyrates import CircuitTemplate, NodeTemplate, OperatorTemplate
-        ops = {
-            ("s", 0): OperatorTemplate("sa", equations=["x' = k"], variables={"x": "output(0.0)", "k": 1.0}),
-            ("s", 1): OperatorTemplate("sb", equations=["x' = k + k"], variables={"x": "output(0.0)", "k": 1.0}),
-            ("t", 0): OperatorTemplate("ta", equations=["x' = r_in"], variables={"x": "output(0.0)", "r_in": "input(0.0)"}),
-            ("t", 1): OperatorTemplate("tb", equations=["x' = r_in + r_in"], variables={"x": "output(0.0)", "r_in": "input(0.0)"}),
-        }
-        opname = {("s", 0): "sa", ("s", 1): "sb", ("t", 0): "ta", ("t", 1): "tb"}
+        NCLS = 4
+        opname = {(kd, c): f"{kd}{'abcd'[c]}" for kd in "st" for c in range(NCLS)}
+        ops = {}
+        for c in range(NCLS):
+            ops[("s", c)] = OperatorTemplate(opname[("s", c)], equations=["x' = " + " + ".join(["k"] * (c + 1))],
+                                             variables={"x": "output(0.0)", "k": 1.0})
+            ops[("t", c)] = OperatorTemplate(opname[("t", c)], equations=["x' = " + " + ".join(["r_in"] * (c + 1))],
+                                             variables={"x": "output(0.0)", "r_in": "input(0.0)"})
         nodes, outs = {}, {}
         for i, n in enumerate(case["nodes"]):
             key = (n["kind"], n["cls"])
@@ -78,27 +79,35 @@ def rhe(q):
 
 def gen_case(rng, kind="valid"):
     """kind: valid | sibling (D15/D24) | parallel (D18) | heun (D7) | none (explicit None) | short (out of scope)"""
-    ns = rng.randint(1, 3); nt = rng.randint(1, 4)
+    ns = rng.randint(1, 3); nt = rng.randint(1, 5)
     kinds = ["s"] * ns + ["t"] * nt
     rng.shuffle(kinds)
-    twocls = rng.random() < 0.4
+    twocls = rng.random() < 0.5
     nodes = []
     for kd in kinds:
-        n = dict(kind=kd, cls=rng.randint(0, 1) if twocls else 0, x0=str(Fr(rng.randint(-8, 8), 4)), k="0")
+        ncls = (rng.choice([2, 3, 4]) if kd == "t" else 2) if twocls else 1
+        n = dict(kind=kd, cls=rng.randrange(ncls), x0=str(Fr(rng.randint(-8, 8), 4)), k="0")
         if kd == "s":
             n["k"] = str(Fr(rng.randint(1, 6), 2))
             if n["x0"] == "0" and rng.random() < 0.8:
                 n["x0"] = "3/4"          # a non-zero start makes "zero before the simulation started" observable
         nodes.append(n)
+    fan = kind == "valid" and rng.random() < 0.25
+    if fan:
+        # one source class fanning out (delayed) into >= 3 structurally different target classes: >= 3 graph edges on one
+        # buffered source variable, i.e. >= 3 slices of the `buffered` vector
+        nodes = [dict(kind="s", cls=0, x0=str(Fr(rng.randint(1, 8), 4)), k=str(Fr(rng.randint(1, 6), 2))) for _ in range(rng.randint(1, 3))]
+        nodes += [dict(kind="t", cls=c, x0=str(Fr(rng.randint(-8, 8), 4)), k="0") for c in rng.sample(range(4), rng.randint(3, 4))]
+        rng.shuffle(nodes)
     S = [i for i, n in enumerate(nodes) if n["kind"] == "s"]; T = [i for i, n in enumerate(nodes) if n["kind"] == "t"]
     dt = Fr(1, rng.choice([4, 8, 16]))
-    vec = rng.random() < 0.5
+    vec = rng.random() < 0.5 or fan
     key = (lambda i: nodes[i]["cls"]) if vec else (lambda i: i)
     p_undelayed = {"valid": 0.25, "sibling": 0.4, "parallel": 0.3, "heun": 0.2, "none": 0.4, "short": 0.2}[kind]
     uform = "none" if kind == "none" else "nokey"
     edges = []
-    for _ in range(rng.randint(1, 7)):
-        s = rng.choice(S); t = rng.choice(T)
+    for j in range(len(T) + rng.randint(0, 3) if fan else rng.randint(1, 7)):
+        s = rng.choice(S); t = T[j] if fan and j < len(T) else rng.choice(T)
         w = str(Fr(rng.choice([-8, -6, -5, -4, -3, -2, -1, 1, 2, 3, 4, 5, 6, 8]), 4))
         if rng.random() < p_undelayed:
             ds = uform
